@@ -665,10 +665,13 @@ def wl_C18(rng, w, cfg, index):
                     else:
                         yield {'op': 'REMOVE', 'a': 0, 'p': ['dC'], 'i': i}
             for _ in range(rng.randint(2, 7)):
-                det = [k for k, x in enumerate(w.removed) if x.parent is None]
+                src = rng.choice(['dC', 'dC', 'dU'])
+                pool = w.detached_of(src)
+                det = [k for k, x in enumerate(pool) if x.parent is None]
                 r = rng.random()
                 if det and r < 0.45:
-                    yield {'op': 'ADD', 'a': 1, 'p': ['dU'], 'reuse': rng.choice(det), 'c': {'name': '?'}}
+                    k = rng.choice(det)
+                    yield {'op': 'ADD', 'a': 1, 'p': ['dU'], 'reuse': k, 'reuse_doc': src, 'c': {'name': pool[k].name}}
                 elif U.children and r < 0.7:
                     yield {'op': 'REMOVE', 'a': 1, 'p': ['dU'], 'i': rng.randrange(len(U.children))}
                 elif U.children and r < 0.8:
@@ -742,10 +745,12 @@ def wl_C18(rng, w, cfg, index):
                 break
             n = rng.choice(unchecked)
             p = w.path_of(n)
-            det = [k for k, x in enumerate(w.removed) if x.parent is None]
+            pool = w.detached_of('d0')
+            det = [k for k, x in enumerate(pool) if x.parent is None]
             if det and rng.random() < 0.3:
                 # a child that was removed / replaced out of another (possibly checked) element earlier
-                yield {'op': 'ADD', 'a': 0, 'p': p, 'reuse': rng.choice(det), 'c': {'name': w.removed[det[0]].name}}
+                k = rng.choice(det)
+                yield {'op': 'ADD', 'a': 0, 'p': p, 'reuse': k, 'reuse_doc': 'd0', 'c': {'name': pool[k].name}}
                 continue
             if r < 0.55:
                 # any class as child, any number, any order
